@@ -137,6 +137,12 @@ class Repo:
                         scan(blk)
 
         scan(mi.tree.body)
+        # class-body aliases of module-level functions (``string = _first_child``): the function is the method
+        for cname, aliases in mi.class_aliases.items():
+            for alias, target in list(aliases.items()):
+                if target not in mi.methods[cname] and target in mi.functions:
+                    mi.methods[cname][alias] = mi.functions[target]
+                    del aliases[alias]
 
     # -- lookup ------------------------------------------------------------------------------
 
@@ -194,6 +200,12 @@ class Repo:
     def const(self, mod: str, name: str) -> Any:
         mi = self.module(mod)
         if name not in mi.assigns:
+            if name in mi.imports:
+                # the table lives in another module of the package and is imported here
+                try:
+                    return self._const_lookup(mi, name)
+                except NotConstant:
+                    pass
             raise AnalysisError(f"anchor vanished: constant {mod}.{name}")
         return fold(mi.assigns[name], lambda n: self._const_lookup(mi, n))
 
@@ -546,7 +558,7 @@ def _self_validation(prop: str) -> dict:
     try:
         env = {k: v for k, v in os.environ.items() if k not in ("VERIF_TIER",)}
         env["VERIF_TIER"] = "quick"
-        subprocess.run([sys.executable, "-m", "sa.selftest", "--prop", prop, "--json", out, "--jobs", "16"], cwd=VERIF, env=env, capture_output=True, text=True, timeout=3000)
+        subprocess.run([sys.executable, "-m", "sa.selftest", "--prop", prop, "--benign", "--json", out, "--jobs", "16"], cwd=VERIF, env=env, capture_output=True, text=True, timeout=3000)
         with open(out) as f:
             res = json.load(f)
     finally:
@@ -554,7 +566,11 @@ def _self_validation(prop: str) -> dict:
             os.unlink(out)
     fire = [r for r in res if r.get("expect") == "fire"]
     silent = [r for r in res if r.get("expect") == "silent"]
+    quiet = [r for r in res if r.get("expect") == "quiet"]
     return {
+        "behaviour_preserving_patches": len(quiet),
+        "no_violation_reported_on": sum(1 for r in quiet if r["status"] == "pass"),
+        "of_which_analysis_could_not_evaluate": sum(1 for r in quiet if r["status"] == "pass" and any(x.get("rc") == 2 for x in r.get("results", {}).values())),
         "variants": len(res),
         "must_fire": len(fire),
         "fired": sum(1 for r in fire if r["status"] == "pass"),
